@@ -650,3 +650,67 @@ Theorem oracle_accepts_model_file fuel e a b marker uv c file ld period now tok 
   start_ok marker uv c m period now tok (token_created r) (fs_changed r)
            (spawned_file fuel e a b marker uv c file ld period now tok) = true.
 Proof. cbn zeta. unfold program_run_file, spawned_file. apply oracle_accepts_model_env. Qed.
+
+(* ------------------------------------------------------ UploadStartTime, histories *)
+
+Theorem upload_start_time_irrelevant fuel e a b marker uv c s1 s2 file ld period now tok :
+  program_run_cfg e a b marker uv c s1 file ld period now tok
+  = program_run_cfg e a b marker uv c s2 file ld period now tok /\
+  spawned_cfg fuel e a b marker uv c s1 file ld period now tok
+  = spawned_cfg fuel e a b marker uv c s2 file ld period now tok.
+Proof. split; reflexivity. Qed.
+
+Theorem oracle_accepts_model_cfg fuel e a b marker uv c s file ld period now tok :
+  let m := effective_mode (dir_known a b) (mode_of_file file) in
+  let r := program_run_cfg e a b marker uv c s file ld period now tok in
+  start_ok marker uv c m period now tok (token_created r) (fs_changed r)
+           (spawned_cfg fuel e a b marker uv c s file ld period now tok) = true.
+Proof. cbn zeta. unfold program_run_cfg, spawned_cfg. apply oracle_accepts_model_file. Qed.
+
+Lemma history_run_cons period t s rest tok :
+  history_run period ((t, s) :: rest) tok =
+  (token_state_allows period t tok :: fst (history_run period rest (if token_state_allows period t tok then Some t else tok)),
+   snd (history_run period rest (if token_state_allows period t tok then Some t else tok))).
+Proof. cbn [history_run]. rewrite acquire_seq_spec. reflexivity. Qed.
+
+(* a refused start leaves the token as it was (its time is not refreshed) and
+   an acquisition stamps it with the current real time *)
+Theorem refused_start_keeps_token period t tok :
+  (token_state_allows period t tok = false -> snd (acquire_seq period t tok) = tok) /\
+  (token_state_allows period t tok = true -> snd (acquire_seq period t tok) = Some t).
+Proof. rewrite acquire_seq_spec. cbn [snd]. split; intros ->; reflexivity. Qed.
+
+(* in every history of starts (any real times, any UploadStartTime values)
+   two acquisitions are at least a period apart, and so are the first one and
+   the token that was there before *)
+Theorem history_is_spaced period starts : forall tok,
+  history_spaced period tok (combine (map fst starts) (fst (history_run period starts tok))) = true.
+Proof.
+  induction starts as [|[t s] rest IH]; intros tok; [reflexivity|].
+  rewrite history_run_cons. cbn [map fst combine history_spaced].
+  destruct (token_state_allows period t tok) eqn:A.
+  - rewrite IH, andb_true_r. unfold token_state_allows, token_fresh in A.
+    destruct tok as [m|]; [|reflexivity]. apply negb_true_iff, Z.ltb_ge in A. apply Z.leb_le. exact A.
+  - apply IH.
+Qed.
+
+(* ... and the limit is not stricter than that: a start a period or more after
+   the last acquisition (refused starts in between do not count) acquires *)
+Theorem history_acquires_after_period period t s rest m :
+  period <= t - m -> fst (history_run period ((t, s) :: rest) (Some m)) = true :: fst (history_run period rest (Some t)).
+Proof.
+  intros H. rewrite history_run_cons. cbn [fst].
+  assert (A : token_state_allows period t (Some m) = true).
+  { unfold token_state_allows, token_fresh. apply negb_true_iff, Z.ltb_ge. exact H. }
+  rewrite A. reflexivity.
+Qed.
+
+Theorem history_refused_then_same period t s rest m :
+  t - m < period -> history_run period ((t, s) :: rest) (Some m) =
+                    (false :: fst (history_run period rest (Some m)), snd (history_run period rest (Some m))).
+Proof.
+  intros H. rewrite history_run_cons.
+  assert (A : token_state_allows period t (Some m) = false).
+  { unfold token_state_allows, token_fresh. apply negb_false_iff, Z.ltb_lt. exact H. }
+  rewrite A. reflexivity.
+Qed.
